@@ -40,6 +40,12 @@ PrevFailedOK(x, dev) ==
   served[x].mode # "reply" \/
   ParseOutcome(UReply(served[x].reply), [server |-> rnd[x].cur, gca |-> rnd[x].gca, dev |-> dev]) # "ok"
 
+(* round x holds an acceptable reply it may not apply: the GCA changed since the round began *)
+StaleDiscard(x, dev) ==
+  /\ rnd[x].phase = "picking" /\ rnd[x].attempts > 0 /\ served[x].mode = "reply"
+  /\ ParseOutcome(UReply(served[x].reply), [server |-> rnd[x].cur, gca |-> rnd[x].gca, dev |-> dev]) = "ok"
+  /\ ~StillTrusted(x)
+
 TReset ==
   /\ Ev.a = "Reset"
   /\ cgca' = "none" /\ cid' = 0 /\ csrv' = <<>> /\ primary' = "zero"
@@ -86,9 +92,10 @@ TEnd ==
   /\ LET x == Rid IN
      IF Ev.ok THEN rnd[x].phase = "idle" /\ UNCHANGED svars
      ELSE /\ rnd[x].phase = "picking"
-          /\ (rnd[x].attempts > 0 => PrevFailedOK(x, Ev.dev))
-          /\ LET f == IF rnd[x].attempts > 0 THEN rnd[x].failed \cup {rnd[x].cur} ELSE rnd[x].failed IN
-             (rnd[x].attempts >= 5 \/ {k \in DOMAIN csrv : ~csrv[k].banned /\ k \notin f} = {})
+          /\ \/ StaleDiscard(x, Ev.dev)
+             \/ /\ (rnd[x].attempts > 0 => PrevFailedOK(x, Ev.dev))
+                /\ LET f == IF rnd[x].attempts > 0 THEN rnd[x].failed \cup {rnd[x].cur} ELSE rnd[x].failed IN
+                   (rnd[x].attempts >= 5 \/ {k \in DOMAIN csrv : ~csrv[k].banned /\ k \notin f} = {})
           /\ rnd' = [rnd EXCEPT ![x] = IdleR] /\ UNCHANGED <<cgca, cid, csrv, primary, cdisk, mutex>>
   /\ (cgca' = Ev.state.gca /\ cid' = Ev.state.id /\ csrv' = UMap(Ev.state.srv))
   /\ cdisk' = UState(Ev.files)
@@ -100,7 +107,8 @@ TEnd ==
 Exhausted(x) ==    \* round x may have given up: five attempts made, or nothing left to pick
   /\ rstat[x] = "run" /\ rnd[x].phase = "picking"
   /\ LET f == IF rnd[x].attempts > 0 THEN rnd[x].failed \cup {rnd[x].cur} ELSE rnd[x].failed IN
-     (rnd[x].attempts >= 5 \/ {k \in DOMAIN csrv : ~csrv[k].banned /\ k \notin f} = {})
+     (rnd[x].attempts >= 5 \/ {k \in DOMAIN csrv : ~csrv[k].banned /\ k \notin f} = {}
+        \/ (rnd[x].attempts > 0 /\ served[x].mode = "reply" /\ ~StillTrusted(x)))
 MayHaveStored(x) == rstat[x] = "applied" \/ Exhausted(x) \/ (sch.closing /\ rstat[x] = "run")
 (* the values syncStatus may hold now: what is known, or the result of a round that may already have *)
 (* stored it although its SyncReturn event is not recorded yet                                        *)
@@ -132,7 +140,7 @@ TReturn ==   \* the goroutine of a launched round stored the round's result
          v == IF Ev.ok THEN 1 ELSE 0 IN
      /\ IF Ev.ok THEN rstat[x] = "applied" /\ UNCHANGED svars
         ELSE /\ rstat[x] = "run"
-             /\ (sch.closing \/ (Exhausted(x) /\ (rnd[x].attempts > 0 => PrevFailedOK(x, Ev.dev))))
+             /\ (sch.closing \/ StaleDiscard(x, Ev.dev) \/ (Exhausted(x) /\ (rnd[x].attempts > 0 => PrevFailedOK(x, Ev.dev))))
              /\ rnd' = [rnd EXCEPT ![x] = IdleR] /\ UNCHANGED <<cgca, cid, csrv, primary, cdisk, mutex>>
      /\ sch' = [sch EXCEPT !.poss = IF conc[x] THEN @ \cup {v} ELSE {v}]
      /\ conc' = [y \in RoundIds |-> IF y = x THEN FALSE ELSE (conc[y] \/ MayHaveStored(y))]
